@@ -55,25 +55,23 @@ PLAN = {
         "sidecars": ["contracts.handlers_c07", "contracts.cellboundary_c07"],
         "extra": ["monitors.provider:bounded"],
         "level": "other",
-        "bounded_only": True,
         "trusted": COMMON_TRUSTED + ["run-time monitors are a bounded stand-in: they cover the shipped configurations for the stated number of events only"],
-        "explanation": "bounded run-time monitor of continuity / time order / one chain / box / identities at every commit",
+        "explanation": 'time slicing primitive and the cell-boundary candidate time proved (contracts); continuity / time order / one chain / box / identities at every commit by a bounded run-time monitor',
     },
     "C11": {
         "sidecars": ["contracts.cellboundary_c07"],
-        "extra": ["monitors.provider:bounded"],
+        "extra": ["monitors.provider:bounded", "bounded.provider:occupancy"],
         "level": "other",
-        "bounded_only": True,
         "trusted": COMMON_TRUSTED + ["run-time monitors are a bounded stand-in: they cover the shipped configurations for the stated number of events only"],
-        "explanation": "bounded run-time monitor comparing the occupancy bookkeeping with the positions after every activator update",
+        "explanation": 'cell-boundary candidate time / direction / boundary proved (contract); bookkeeping == positions by a bounded run-time monitor and a bounded event-loop harness on the real occupancy',
     },
     "C12": {
         "sidecars": [],
-        "extra": ["monitors.provider:bounded"],
+        "extra": ["monitors.provider:bounded", "bounded.provider:composite"],
         "level": "other",
         "bounded_only": True,
         "trusted": COMMON_TRUSTED + ["run-time monitors are a bounded stand-in: they cover the shipped configurations for the stated number of events only"],
-        "explanation": "bounded run-time monitor of composite velocity and barycentre at every commit",
+        "explanation": 'bounded run-time monitor of composite velocity and barycentre at every commit + bounded harness on the real node creators and handlers (2 and 3 point masses)',
     },
     "C13": {
         "sidecars": [],
@@ -87,9 +85,8 @@ PLAN = {
         "sidecars": ["contracts.handlers_c07"],
         "extra": ["monitors.provider:bounded"],
         "level": "other",
-        "bounded_only": True,
         "trusted": COMMON_TRUSTED + ["run-time monitors are a bounded stand-in: they cover the shipped configurations for the stated number of events only"],
-        "explanation": "bounded run-time monitor of sample times and time-sliced sample states",
+        "explanation": 'sampling / end-of-run candidate times proved (constructors, per-call step in models R and F); time-sliced sample states by a bounded run-time monitor',
     },
     "C03": {
         "sidecars": ["contracts.potentials_c03"],
@@ -125,15 +122,14 @@ PLAN = {
         "extra": ["bounded.provider:domination"],
         "level": "other",
         "trusted": COMMON_TRUSTED + ["model R"],
-        "explanation": "confirmation ratio and frame of the two-leaf bounding-potential confirmation proved; domination of the 1/r bound is a bounded grid check",
+        "explanation": 'confirmation ratio and frame of the two-leaf confirmation proved; domination of the 1/r bound is a bounded grid check; composite-object / cell-bounding confirmation sites by a bounded harness with controlled draws',
     },
     "C10": {
         "sidecars": ["contracts.cellveto_c18"],
-        "extra": ["monitors.provider:bounded"],
+        "extra": ["monitors.provider:bounded", "bounded.provider:occupancy", "bounded.provider:factor_files"],
         "level": "other",
-        "bounded_only": True,
         "trusted": COMMON_TRUSTED + ["run-time monitors are a bounded stand-in: they cover the shipped configurations for the stated number of events only"],
-        "explanation": "bounded run-time monitor: near + surplus + far targets partition the other relevant units at every activator call",
+        "explanation": 'cell-veto target cell proved (contract); partition of the partners by a bounded run-time monitor and a bounded occupancy harness; factor-file in-states by a bounded harness against an independent parse',
     },
     "C19": {
         "sidecars": [],
